@@ -10,8 +10,11 @@
 //             BG start_accumulating_in_new_target + back_project(RelatedViewgrams) + get_output
 //             FW / BW the same through the overloads with axial / tangential sub-ranges (seeded windows)
 //             O  on-the-fly ForwardProjectorByBinUsingRayTracing (where applicable)
+//             FK / BK  the whole-data calls with the unit image / unit datum scaled by 2^k, for every k of the block (Ks)
 //           a row is the list of [voxel index, ordered float bits(, fixed point 2^-16)] of the non-zero entries
 //   Col     (history blocks) column of the recorded F per voxel: [bin index, fixed point]
+//   Scaled  one forward or back call (subset or group window) made twice: with integer input and with the same input times 2^k;
+//           both complete results as ordered float bits
 //   history events SetData SetInput ForwardSubset ForwardGroup StartNewTarget BackSubset BackGroup GetOutput BackInto
 //           with small signed integer images / data; the complete projection data (ordered bits + fixed point)
 //           or output image is logged after every call that may change it.
@@ -66,6 +69,8 @@ struct Block {
   std::string pair = "rt";      // "rt": ray-tracing matrix, "interp": interpolation matrix
   int swbits = 31, ntl = 1, cache = 2;   // cache: 0 disabled, 1 basic bins only, 2 everything
   std::vector<int> Ns;          // numbers of subsets of the FS / BS routes
+  std::vector<int> Ks;          // exponents k of the scaled routes FK / BK (inputs multiplied by 2^k) and of the Scaled events
+  int nscaled = 0;              // number of Scaled events
   bool groups = false;          // FG / BG routes
   int nwinsets = 0;             // number of seeded window sets (FW / BW)
   bool otf = false;             // on-the-fly ray-tracing forward projector (O)
@@ -163,22 +168,22 @@ template <class CB> static void scan_image(const Sys& S, const Image& im, CB cb)
       for (int x = S.xmin; x < S.xmin + S.nx; ++x)
         cb(S.vox_index(z, y, x), im[z][y][x]);
 }
-static void set_data(const Sys& S, ProjDataInMemory& pd, const std::vector<int>& y) {
+static void set_data(const Sys& S, ProjDataInMemory& pd, const std::vector<int>& y, float scale = 1.F) {
   for (int seg = S.min_seg; seg <= S.pdi->get_max_segment_num(); ++seg)
     for (int k = S.min_tof; k < S.min_tof + S.ntof; ++k)
       for (int view = 0; view < S.nviews; ++view) {
         Viewgram<float> vg = pd.get_empty_viewgram(view, seg, false, k);
         for (int ax = vg.get_min_axial_pos_num(); ax <= vg.get_max_axial_pos_num(); ++ax)
           for (int t = vg.get_min_tangential_pos_num(); t <= vg.get_max_tangential_pos_num(); ++t)
-            vg[ax][t] = (float)y[S.bin_index(seg, ax, view, t, k)];
+            vg[ax][t] = scale * (float)y[S.bin_index(seg, ax, view, t, k)];
         pd.set_viewgram(vg);
       }
 }
-static void set_image(const Sys& S, Image& im, const std::vector<int>& x) {
+static void set_image(const Sys& S, Image& im, const std::vector<int>& x, float scale = 1.F) {
   for (int z = S.zmin; z < S.zmin + S.nz; ++z)
     for (int y = S.ymin; y < S.ymin + S.ny; ++y)
       for (int xx = S.xmin; xx < S.xmin + S.nx; ++xx)
-        im[z][y][xx] = (float)x[S.vox_index(z, y, xx)];
+        im[z][y][xx] = scale * (float)x[S.vox_index(z, y, xx)];
 }
 static float& voxel(const Sys& S, Image& im, int v) {
   const int x = v % S.nx, y = (v / S.nx) % S.ny, z = v / (S.nx * S.ny);
@@ -244,6 +249,7 @@ struct Routes {
   std::vector<std::map<std::pair<int, int>, Row>> FS, BS;        // per bin: (N, s) -> row
   std::vector<std::map<std::array<int, 3>, Row>> FG, BG;         // per bin: (basic view, basic segment, k) -> row
   std::vector<std::map<int, Row>> FW, BW;                        // per bin: window id -> row
+  std::vector<std::map<int, Row>> FK, BK;                        // per bin: exponent k -> row
 };
 
 static void emit_config(vh::Trace& tr, const Block& b, const Sys& S, long id, const std::vector<Win>& wins, bool otf) {
@@ -264,7 +270,7 @@ static void emit_config(vh::Trace& tr, const Block& b, const Sys& S, long id, co
             c->using_symmetry_swap_s(), c->using_symmetry_shift_z() };
   }
   j.arr("req", sw_list(sw_from_bits(b.swbits))).arr("eff", eff).boolean("cartesian", cart).num("ntl", b.ntl).num("cache", b.cache)
-      .arr("Ns", b.Ns).boolean("groups", b.groups).boolean("otf", otf).boolean("hist", b.nhist > 0).num("scale", FXS);
+      .arr("Ns", b.Ns).arr("Ks", b.Ks).boolean("groups", b.groups).boolean("otf", otf).boolean("hist", b.nhist > 0).num("scale", FXS);
   std::vector<std::vector<int>> wl;
   for (const Win& w : wins) wl.push_back({ w.id, w.bv, w.bs, w.k, w.axlo, w.axhi, w.tlo, w.thi, w.set, w.mode });
   j.arr2("wins", wl);
@@ -274,7 +280,7 @@ static void emit_config(vh::Trace& tr, const Block& b, const Sys& S, long id, co
 static void extract(const Block& b, Sys& S, Routes& R, const std::vector<Win>& wins, bool otf) {
   const int nb = S.nb, nv = S.nv;
   R.F.assign(nb, Row()); R.B.assign(nb, Row()); R.O.assign(nb, Row());
-  R.FS.assign(nb, {}); R.BS.assign(nb, {}); R.FG.assign(nb, {}); R.BG.assign(nb, {}); R.FW.assign(nb, {}); R.BW.assign(nb, {});
+  R.FS.assign(nb, {}); R.BS.assign(nb, {}); R.FG.assign(nb, {}); R.BG.assign(nb, {}); R.FW.assign(nb, {}); R.BW.assign(nb, {}); R.FK.assign(nb, {}); R.BK.assign(nb, {});
   shared_ptr<ExamInfo> ei(new ExamInfo);
   ProjDataInMemory data(ei, S.pdi), ydata(ei, S.pdi);
   shared_ptr<Image> e(S.zero_image->clone()), out(S.zero_image->clone());
@@ -288,6 +294,11 @@ static void extract(const Block& b, Sys& S, Routes& R, const std::vector<Win>& w
         S.fwd->forward_project(data, *e, s, N, true);
         scan_data(S, data, [&](int i, float val) { if (ord_of(val) != 0 || val != val) add_nonzero(R.FS[i][{ N, s }], v, val); });
       }
+    for (int k : b.Ks) {
+      voxel(S, *e, v) = std::ldexp(1.F, k);
+      S.fwd->forward_project(data, *e, 0, 1, true);
+      scan_data(S, data, [&](int i, float val) { if (ord_of(val) != 0 || val != val) add_nonzero(R.FK[i][k], v, val); });
+    }
     voxel(S, *e, v) = 0.F;
   }
   // whole data and subsets, back
@@ -304,6 +315,12 @@ static void extract(const Block& b, Sys& S, Routes& R, const std::vector<Win>& w
         S.bck->back_project(*out, ydata, s, N);
         scan_image(S, *out, [&](int v, float val) { if (ord_of(val) != 0 || val != val) add_nonzero(R.BS[i][{ N, s }], v, val); });
       }
+    for (int k : b.Ks) {
+      bin.set_bin_value(std::ldexp(1.F, k));
+      ydata.set_bin_value(bin);
+      S.bck->back_project(*out, ydata, 0, 1);
+      scan_image(S, *out, [&](int v, float val) { if (ord_of(val) != 0 || val != val) add_nonzero(R.BK[i][k], v, val); });
+    }
     bin.set_bin_value(0.F);
     ydata.set_bin_value(bin);
   }
@@ -406,7 +423,7 @@ static void emit_bins(vh::Trace& tr, const Sys& S, const Routes& R, bool otf) {
       }
       return s + "]";
     };
-    j.raw("FS", sub(R.FS[i])).raw("BS", sub(R.BS[i])).raw("FG", grp(R.FG[i])).raw("BG", grp(R.BG[i])).raw("FW", win(R.FW[i])).raw("BW", win(R.BW[i]));
+    j.raw("FS", sub(R.FS[i])).raw("BS", sub(R.BS[i])).raw("FG", grp(R.FG[i])).raw("BG", grp(R.BG[i])).raw("FW", win(R.FW[i])).raw("BW", win(R.BW[i])).raw("FK", win(R.FK[i])).raw("BK", win(R.BK[i]));
     if (otf) j.raw("O", row_json(R.O[i], true));
     tr.emit(j);
   }
@@ -553,6 +570,62 @@ static void histories(vh::Trace& tr, const Block& b, Sys& S, const Routes& R, vh
   }
 }
 
+// ------------------------------------------------------------------------------------------- homogeneity
+// one call made twice on the block's projector pair: with an integer image / integer data and with the same input times 2^k
+static void scaled_events(vh::Trace& tr, const Block& b, Sys& S, vh::Rng& rng) {
+  if (b.Ks.empty()) return;
+  const std::vector<ViewSegmentNumbers> bl = basic_vs(S);
+  shared_ptr<ExamInfo> ei(new ExamInfo);
+  shared_ptr<Image> x(S.zero_image->clone()), out(S.zero_image->clone());
+  for (int q = 0; q < b.nscaled; ++q) {
+    const bool fwd = q % 2 == 0, group = q % 3 == 2;
+    const int k = b.Ks[(q / 2) % b.Ks.size()];
+    const int N = rng.range(1, S.nviews), s = rng.range(0, N - 1);
+    const ViewSegmentNumbers vs = bl[rng.next() % bl.size()];
+    Win w{ 0, vs.view_num(), vs.segment_num(), rng.range(S.min_tof, S.min_tof + S.ntof - 1), 0, 0, 0, 0, -1, rng.range(0, 2) };
+    const int a0 = S.pdi->get_min_axial_pos_num(vs.segment_num()), a1 = S.pdi->get_max_axial_pos_num(vs.segment_num());
+    const int t0 = S.min_tang, t1 = S.min_tang + S.ntang - 1;
+    w.axlo = a0; w.axhi = a1; w.tlo = t0; w.thi = t1;
+    if (w.mode >= 1) { w.axlo = rng.range(a0, a1); w.axhi = rng.range(w.axlo, a1); }
+    if (w.mode == 2) { w.tlo = rng.range(t0, t1); w.thi = rng.range(w.tlo, t1); }
+    const std::vector<int> in = fwd ? random_ints(rng, S.nv, 2, 60) : random_ints(rng, S.nb, 3, 60);
+    DataLog d[2];
+    std::string m;
+    const bool err = vh::threw([&] {
+      for (int pass = 0; pass < 2; ++pass) {
+        const float scale = pass == 0 ? 1.F : std::ldexp(1.F, k);
+        if (fwd) {
+          ProjDataInMemory data(ei, S.pdi);
+          set_image(S, *x, in, scale);
+          if (group) {
+            S.fwd->set_input(*x);
+            RelatedViewgrams<float> r = data.get_empty_related_viewgrams(vs, S.sym, false, w.k);
+            fwd_window(*S.fwd, r, w);
+            if (data.set_related_viewgrams(r) != Succeeded::yes) error("c04: set_related_viewgrams failed");
+          } else
+            S.fwd->forward_project(data, *x, s, N, true);
+          d[pass] = log_data(S, data);
+        } else {
+          ProjDataInMemory ydata(ei, S.pdi);
+          set_data(S, ydata, in, scale);
+          out->fill(-5.F);
+          if (group) {
+            const RelatedViewgrams<float> r = ydata.get_related_viewgrams(vs, S.sym, false, w.k);
+            S.bck->start_accumulating_in_new_target();
+            bck_window(*S.bck, r, w);
+            S.bck->get_output(*out);
+          } else
+            S.bck->back_project(*out, ydata, s, N);
+          d[pass] = log_image(S, *out);
+        }
+      }
+    }, &m);
+    tr.emit(vh::Json("Scaled").boolean("fwd", fwd).boolean("group", group).num("k", k).num("s", s).num("N", N)
+                .arr("w", std::vector<int>{ w.bv, w.bs, w.k, w.axlo, w.axhi, w.tlo, w.thi, w.mode }).arr("in", in).boolean("err", err)
+                .arr("ord1", d[0].ord).arr("ord2", d[1].ord));
+  }
+}
+
 // ------------------------------------------------------------------------------------------- on-the-fly projector, groups
 // forward_project(RelatedViewgrams&, ranges) of the on-the-fly ray-tracing projector into viewgrams that already contain data
 static void otf_groups(vh::Trace& tr, const Block& b, Sys& S, vh::Rng& rng, int n) {
@@ -576,13 +649,23 @@ static void otf_groups(vh::Trace& tr, const Block& b, Sys& S, vh::Rng& rng, int 
     w.axlo = a0; w.axhi = a1; w.tlo = t0; w.thi = t1;
     if (w.mode >= 1) { w.axlo = rng.range(a0, a1); w.axhi = rng.range(w.axlo, a1); }
     if (w.mode == 2) { w.tlo = rng.range(t0, t1); w.thi = rng.range(w.tlo, t1); }
+    if (q == 1) {
+      // always present: an axial sub-range ending below the last axial position, segment 0, a view between the multiples of 45 degrees
+      for (const ViewSegmentNumbers& c : bl)
+        if (c.segment_num() == 0 && (4 * c.view_num()) % S.nviews != 0 && S.pdi->get_max_axial_pos_num(0) > S.pdi->get_min_axial_pos_num(0)) {
+          w.bv = c.view_num(); w.bs = 0; w.mode = 1;
+          w.axlo = S.pdi->get_min_axial_pos_num(0); w.axhi = S.pdi->get_max_axial_pos_num(0) - 1; w.tlo = t0; w.thi = t1;
+          break;
+        }
+    }
+    const ViewSegmentNumbers vsw(w.bv, w.bs);
     const std::vector<int> y = random_ints(rng, S.nb, 3, q == 0 ? 0 : 70), xv = random_ints(rng, S.nv, 2, 60);
     set_data(S, data, y);
     set_image(S, *x, xv);
     std::string m;
     const bool err = vh::threw([&] {
       f.set_input(*x);
-      RelatedViewgrams<float> r = data.get_related_viewgrams(vs, sym, false, w.k);
+      RelatedViewgrams<float> r = data.get_related_viewgrams(vsw, sym, false, w.k);
       fwd_window(f, r, w);
       if (data.set_related_viewgrams(r) != Succeeded::yes) error("c04: set_related_viewgrams failed");
     }, &m);
@@ -646,6 +729,13 @@ static std::vector<Block> blocks(int tier) {
       add("blk16-rt-c" + std::to_string(cache), blk16, g15b, "rt", 31, 1, cache, { 2, 3 }, true, 3, false, 0, 0);
     }
   }
+  // exponents of the scaled routes: the large systems get two, the small ones (every projector pair / geometry class) all
+  for (Block& b : bs) {
+    const bool large = b.d.N >= 16;
+    if (tier == 0) b.Ks = large ? std::vector<int>{ -40, 40 } : std::vector<int>{ -60, -40, -30, -20, 30 };
+    else b.Ks = large ? std::vector<int>{ -60, -30, 40 } : std::vector<int>{ -60, -40, -30, -20, 20, 40, 60 };
+    b.nscaled = 2 * (int)b.Ks.size();   // a forward and a back call per exponent
+  }
   return bs;
 }
 
@@ -685,6 +775,7 @@ int main(int argc, char** argv) {
     emit_bins(tr, S, R, otf);
     if (b.nhist > 0) histories(tr, b, S, R, rng);
     if (otf) otf_groups(tr, b, S, rng, tier == 0 ? 6 : 9);
+    scaled_events(tr, b, S, rng);
     tr.flush();
   }
   return 0;
